@@ -41,6 +41,8 @@ var Mutants = map[string][]Mutant{
 		{"empty Q returns P for And", "path_intersection.go", `if op == opAND \{\n\t\t\treturn &Path\{\}\n\t\t\}\n\t\treturn ps\.Settle\(fillRule\)`, `return ps.Settle(fillRule)`, "E9.shortcut"},
 	},
 	"C02": {
+		{"Reverse flips the direction flag of the receiver only", "path_intersection.go", `s\.increasing, s\.other\.increasing = !s\.increasing, !s\.other\.increasing`, "s.increasing, s.other.increasing = !s.increasing, s.increasing", "E9.endpoint-pair"},
+		{"new segment's end points disagree on the direction flag", "path_intersection.go", `(?s)(left:       !increasing,\n\t\t\t)increasing: increasing,`, "${1}increasing: !increasing,", "E9.endpoint-pair"},
 		{"operand sub-paths expanded in place over the tail", "path_intersection.go", `(?s)for i, iMax := 0, len\(ps\); i < iMax; i\+\+ \{\n\t\tsplit := ps\[i\]\.Split\(\)\n\t\tif 1 < len\(split\) \{\n\t\t\tps\[i\] = split\[0\]\n\t\t\tps = append\(ps, split\[1:\]\.\.\.\)\n`, "for i := 0; i < len(ps); i++ {\n\t\tsplit := ps[i].Split()\n\t\tif 1 < len(split) {\n\t\t\tps = append(append(ps[:i], split...), ps[i+1:]...)\n\t\t\ti += len(split) - 1\n", "E4.insert-alias"},
 		{"tolerance square range starts at the reference node below", "path_intersection.go", `// this is set if the reference node is below the square\n\t\t\t\t\t\tsquare\.Lower = next\n`, "// this is set if the reference node is below the square\n\t\t\t\t\t\tsquare.Lower = square.Node\n", "E9.square-range"},
 		{"contour depth read from the segment directly below", "path_intersection.go", `\t\t\tfor prev != nil && !prev\.resultEdge \{\n[^\n]*\n\t\t\t\tprev = prev\.prev\n\t\t\t\}\n`, "", "E9.depth-from-result-edge"},
@@ -106,6 +108,7 @@ var Mutants = map[string][]Mutant{
 		{"Windings looks at the whole path only", "path.go", `\tfor _, pi := range p\.Split\(\) \{\n\t\tzs := pi\.RayIntersections\(x, y\)`, "\tfor _, pi := range []*Path{p} {\n\t\tzs := pi.RayIntersections(x, y)", "E9.subpaths"},
 	},
 	"C07": {
+		{"inverse of the arc frame composed as m⁻¹·R(−φ)", "path.go", `(?s)T := m\.Rotate\(phi \* 180\.0 / math\.Pi\)\n\t\t\tinvT := T\.Inv\(\)`, "invT := m.Inv().Rotate(-phi * 180.0 / math.Pi)", "E11.conic-frame"},
 		{"inverse divided by the absolute determinant", "util.go", `\tdet := m\.Det\(\)\n\tif Equal\(det, 0\.0\) \{\n\t\tpanic\("determinant of affine`, "\tdet := math.Abs(m.Det())\n\tif det <= Epsilon {\n\t\tpanic(\"determinant of affine", "E11.matrix-inverse"},
 		{"Decompose merges the rotations for every similarity", "util.go", `\tif Equal\(sx, 1\.0\) && Equal\(sy, 1\.0\) \{\n\t\ttheta \+= phi`, "\tif m.IsSimilarity() {\n\t\ttheta += phi", "E11.rotation-merge"},
 		{"Decompose merges the rotations when the magnitudes agree", "util.go", `\tif Equal\(sx, 1\.0\) && Equal\(sy, 1\.0\) \{\n\t\ttheta \+= phi`, "\tif Equal(math.Abs(sx), math.Abs(sy)) {\n\t\ttheta += phi", "E11.rotation-merge"},
@@ -125,6 +128,7 @@ var Mutants = map[string][]Mutant{
 		{"Rect.Add max reads the low field", "util.go", `x1 := math\.Max\(r\.X1, q\.X1\)`, `x1 := math.Max(r.X1, q.X0)`, "E3.mirror"},
 	},
 	"C09": {
+		{"collinear cubic measured as its chord", "path_util.go", `(func cubicBezierLength\(p0, p1, p2, p3 Point\) float64 \{\n)`, "${1}\tif chord := p3.Sub(p0); !p0.Equals(p3) && Equal(chord.PerpDot(p1.Sub(p0)), 0.0) && Equal(chord.PerpDot(p2.Sub(p0)), 0.0) {\n\t\treturn chord.Length()\n\t}\n", "E9.chord-shortcut"},
 		{"circular arc length taken before the angles are ordered", "path_util.go", `func ellipseLength\(rx, ry, theta1, theta2 float64\) float64 \{\n`, "func ellipseLength(rx, ry, theta1, theta2 float64) float64 {\n\tif rx == ry {\n\t\treturn rx * (theta2 - theta1)\n\t}\n", "E11.normalise-first"},
 		{"Reverse skips segments that end where they start", "path.go", `(\t\t\tend = Point\{p\.d\[i-3\], p\.d\[i-2\]\}\n\t\t\}\n)(\n\t\tswitch cmd \{\n\t\tcase MoveToCmd:\n\t\t\tif closed \{)`, "${1}\t\tif cmd != MoveToCmd && cmd != CloseCmd && start.Equals(end) {\n\t\t\tcontinue\n\t\t}\n${2}", "E2.record-preserved"},
 		{"Reverse emits a cubic only when it is not degenerate", "path.go", `(\t\t\tcx2, cy2 := p\.d\[i\+3\], p\.d\[i\+4\]\n)(\t\t\tq\.d = append\(q\.d, CubeToCmd, cx2, cy2, cx1, cy1, end\.X, end\.Y, CubeToCmd\)\n)`, "${1}\t\t\tif !start.Equals(end) {\n\t${2}\t\t\t}\n", "E2.record-preserved"},
@@ -207,6 +211,7 @@ var Mutants = map[string][]Mutant{
 		{"stroke keeps even-odd star", "renderers/pdf/pdf.go", `\t\t\tif closed \{\n\t\t\t\tr\.w\.Write\(\[\]byte\(" s"\)\)\n\t\t\t\} else \{\n\t\t\t\tr\.w\.Write\(\[\]byte\(" S"\)\)\n\t\t\t\}\n\t\t\} else if style\.HasFill\(\) && style\.HasStroke\(\) \{`, "\t\t\tif closed {\n\t\t\t\tr.w.Write([]byte(\" s\"))\n\t\t\t} else {\n\t\t\t\tr.w.Write([]byte(\" S\"))\n\t\t\t}\n\t\t\tif style.FillRule == canvas.EvenOdd {\n\t\t\t\tr.w.Write([]byte(\"*\"))\n\t\t\t}\n\t\t} else if style.HasFill() && style.HasStroke() {", "E5.grammar"},
 	},
 	"C14": {
+		{"early-out on bounds that a dashed stroke's outline replaced", "renderers/rasterizer/rasterizer.go", `(?s)\t\tif style\.HasFill\(\) \{\n\t\t\tbounds = bounds\.Add\(stroke\.FastBounds\(\)\)\n\t\t\} else \{\n\t\t\tbounds = stroke\.FastBounds\(\)\n\t\t\}\n(.*?)(\tif style\.HasFill\(\) \{\n\t\tr\.scanner\.SetWinding)`, "\t\tbounds = stroke.FastBounds()\n${1}\tif bounds.X1*dpmm <= 0.0 || float64(size.X) <= bounds.X0*dpmm {\n\t\treturn\n\t}\n${2}", "E6.skip-bounds-cover"},
 		{"rasterizer transforms the path before stroking it", "renderers/rasterizer/rasterizer.go", `\t\tstroke = path\n\t\tif 0 < len\(style\.Dashes\) \{`, "\t\tstroke = path.Copy().Transform(m)\n\t\tif 0 < len(style.Dashes) {", "E11.stroke-before-view"},
 		{"scanner remembers the next sub-path's start before closing the previous one", "path.go", `(?s)\tvar first Point\n(\topen := false\n.*?)\t\t\tif cmd == MoveToCmd && open \{\n[^\n]*\n\t\t\t\tras\.Line\(fixedPoint26_6\(first\.X\*dpmm, dy-first\.Y\*dpmm\)\)\n\t\t\t\}\n(.*?)\t\t\tfirst = Point\{p\.d\[i\+1\], p\.d\[i\+2\]\}\n\t\t\tras\.Start\(fixedPoint26_6\(p\.d\[i\+1\]\*dpmm, dy-p\.d\[i\+2\]\*dpmm\)\)\n(.*?)\t\tras\.Line\(fixedPoint26_6\(first\.X\*dpmm, dy-first\.Y\*dpmm\)\)\n`, "\tvar first fixed.Point26_6\n${1}\t\t\tif cmd == MoveToCmd {\n\t\t\t\tfirst = fixedPoint26_6(p.d[i+1]*dpmm, dy-p.d[i+2]*dpmm)\n\t\t\t\tif open {\n\t\t\t\t\tras.Line(first)\n\t\t\t\t}\n\t\t\t}\n${2}\t\t\tras.Start(first)\n${3}\t\tras.Line(first)\n", "E6.implicit-close"},
 		{"rasterizer strokes with a view-independent tolerance", "renderers/rasterizer/rasterizer.go", `\t\t\ttolerance /= math\.Max\(math\.Abs\(sx\), math\.Abs\(sy\)\)\n`, "\t\t\t_ = sx + sy\n", "E11.stroke-tolerance-view"},
@@ -223,6 +228,8 @@ var Mutants = map[string][]Mutant{
 		{"rasterizer ignores the fill rule", "renderers/rasterizer/rasterizer.go", `\t\tr\.scanner\.SetWinding\(style\.FillRule != canvas\.EvenOdd\)\n`, ``, "E6.style-field"},
 	},
 	"C15": {
+		{"Stroke returns before resetting the path when there is no stroke", "canvas.go", `(func \(c \*Context\) Stroke\(\) \{\n)`, "${1}\tif !c.Style.HasStroke() {\n\t\treturn\n\t}\n", "E11.ctx-restore"},
+		{"Pop without its empty-stack guard", "canvas.go", `(?s)(func \(c \*Context\) Pop\(\) \{\n)\tif len\(c\.stack\) == 0 \{\n\t\treturn\n\t\}\n`, "${1}", "E11.ctx-stack"},
 		{"SetDashes keeps the caller's array", "canvas.go", `c\.Style\.Dashes = append\(\[\]float64\{\}, dashes\.\.\.\)[^\n]*\n`, "c.Style.Dashes = dashes\n", "E11.setter-copies-slice"},
 		{"checkDash hands out the canonical dashes without their offset", "path.go", `\t\treturn d\[:0\], false // first space covers whole path, no stroke\n\t\}\n\treturn orig, true\n`, "\t\treturn d[:0], false // first space covers whole path, no stroke\n\t}\n\t_ = orig\n\treturn d, true\n", "E11.dash-pair"},
 		{"DrawPath skips the coordinate view at the origin", "canvas.go", `\tcoord := c\.coordView\.Dot\(Point\{x, y\}\)\n\tm = m\.Mul\(c\.view\)\.Translate\(coord\.X, coord\.Y\)\n\n\tfor _, path := range paths`, "\tm = m.Mul(c.view)\n\tif x != 0.0 || y != 0.0 {\n\t\tcoord := c.coordView.Dot(Point{x, y})\n\t\tm = m.Translate(coord.X, coord.Y)\n\t}\n\n\tfor _, path := range paths", "E11.draw-matrix"},
@@ -239,6 +246,7 @@ var Mutants = map[string][]Mutant{
 		{"setter writes the stack", "canvas.go", `func \(c \*Context\) SetStrokeWidth\(width float64\) \{\n`, "func (c *Context) SetStrokeWidth(width float64) {\n\tc.stack = nil\n", "E11.ctx-setter"},
 	},
 	"C16": {
+		{"text bounds from the first and last span of the slice", "text.go", `(?s)(func \(t \*Text\) Bounds\(\) Rect \{.*?)\t\tfor _, span := range line\.spans \{\n(.*?)\n\t\t\}\n`, "${1}\t\tif len(line.spans) == 0 {\n\t\t\tcontinue\n\t\t}\n\t\tfirst, last := line.spans[0], line.spans[len(line.spans)-1]\n\t\trect = rect.Add(Rect{first.X, -line.y, last.X + last.Width, -line.y})\n\t\tfor _, span := range line.spans {\n${2}\n\t\t}\n", "E3.text-bounds-fold"},
 		{"run index taken before the leading white space is skipped", "text.go", `(?s)(\t\teolSkip := 0 // number of glyphs after the last box\n)(.*?)\t\tk := glyphIndices\.index\(a\) // index into runs\n`, "${1}\t\tk := glyphIndices.index(ag)\n${2}", "E11.derived-before-update"},
 		{"Reset keeps the embedded objects", "text.go", `\trt\.objects = map\[uint32\]TextSpanObject\{\} // are keyed by their position in the text\n`, "", "E11.reset-complete"},
 		{"empty line's face looked up with the rune counter", "text.go", `runs\[glyphIndices\.index\(ag\)\]\.Face\.heights\(rt\.mode\)`, "runs[glyphIndices.index(i)].Face.heights(rt.mode)", "E11.glyph-index-domain"},
@@ -255,6 +263,9 @@ var Mutants = map[string][]Mutant{
 		{"Text.Heights uses the first line's top", "text.go", `\t_, ascent, _, _ := firstLine\.Heights\(t\.WritingMode\)`, "\tascent, _, _, _ := firstLine.Heights(t.WritingMode)", "E3.line-heights"},
 	},
 	"C17": {
+		{"inactive nodes kept across a forced break", "text/linebreak.go", `(?s)\t\tif item\.Type == PenaltyType && item\.Penalty <= -Infinity \{\n\t\t\t// no line spans a forced break: the nodes before it cannot start a later line\n\t\t\tlb\.inactiveNodes = &Breakpoints\{\}\n\t\t\}\n`, "", "E4.forced-break-forgets"},
+		{"inactive nodes dropped only at forced breaks that carry a width", "text/linebreak.go", `(?s)(\t\tif item\.Type == PenaltyType && item\.Penalty <= -Infinity) (\{\n\t\t\t// no line spans a forced break)`, "${1} && item.Width != 0.0 ${2}", "E4.forced-break-forgets"},
+		{"unstretchable line tested on the running stretch sum", "text/linebreak.go", `if lb\.Y-active\.Y == 0\.0 \{`, "if lb.Y == 0.0 {", "E4.zero-guard-is-divisor"},
 		{"overflow breakpoint takes the running totals", "text/linebreak.go", `(\t\t\t\t\t\t\tWidth:    width,\n)\t\t\t\t\t\t\tW:        W,\n\t\t\t\t\t\t\tY:        Y,\n\t\t\t\t\t\t\tZ:        Z,\n(\t\t\t\t\t\t\tRatio:    0\.0,)`, "${1}\t\t\t\t\t\t\tW:        lb.W,\n\t\t\t\t\t\t\tY:        lb.Y + 0*Y + 0*W,\n\t\t\t\t\t\t\tZ:        lb.Z + 0*Z,\n${2}", "E11.break-sums"},
 		{"forced break deactivates feasible nodes only", "text/linebreak.go", `\t\t\tif ratio < -1\.0 \|\| item\.Type == PenaltyType && item\.Penalty <= -Infinity \{\n\t\t\t\tlb\.activeNodes\.Remove\(active\)\n\t\t\t\tlb\.inactiveNodes\.Push\(active\)\n\t\t\t\}\n`, "\t\t\tif ratio < -1.0 || ratio <= tolerance && item.Type == PenaltyType && item.Penalty <= -Infinity {\n\t\t\t\tlb.activeNodes.Remove(active)\n\t\t\t\tlb.inactiveNodes.Push(active)\n\t\t\t}\n", "E4.forced-break-deactivates"},
 		{"break list sized before looseness picks the node", "text/linebreak.go", `(?s)\tif looseness != 0 \{\n\t\ts := 0\n\t\tk := b\.Line\n(.*?)breaks := make\(\[\]\*Breakpoint, b\.Line\+1\)`, "\tk := b.Line\n\tif looseness != 0 {\n\t\ts := 0\n${1}breaks := make([]*Breakpoint, k+1)", "E4.alloc-covers-index"},
